@@ -341,7 +341,39 @@ def gen_script(rnd, nev, has_children, p_block):
     return sc
 
 
+def build_burst(rnd):
+    """a long burst of events while one blocking command is pending (queues of 20-90 events), then its completion"""
+    stack = rnd.choice(["single", "chain", "nextlayer"])
+    nev = rnd.randint(20, 90)
+    def script(p_block):
+        sc = {"0": [["block", "0.0"]]}
+        for i in range(1, nev):
+            r = rnd.random()
+            sc[str(i)] = [["send", "%d.0" % i]] if r < 0.5 else [["block", "%d.0" % i]] if r < p_block + 0.5 else []
+        return sc
+    scripts = {"A": script(0.05), "B": script(0.05), "C": {}}
+    if stack == "chain":
+        for i in range(nev):
+            if rnd.random() < 0.7:
+                scripts["A"][str(i)] = scripts["A"][str(i)] + [["child", 0]]
+    k = rnd.randint(1, 3)
+    sched = [["ev"]] * nev
+    sched = list(sched)
+    # few completions, late: most events arrive during one pause
+    for _ in range(rnd.randint(0, 3)):
+        sched.insert(rnd.randint(min(nev, 35), len(sched)), ["done", rnd.randint(0, 2)])
+    case = {"stack": stack, "scripts": scripts, "schedule": sched, "burst": True}
+    if stack == "nextlayer":
+        case["pick_at"] = k
+        case["ask_on_start"] = rnd.random() < 0.5
+        if rnd.random() < 0.3:
+            sched.insert(rnd.randint(0, len(sched)), ["close"])
+    return case
+
+
 def build(rnd):
+    if rnd.random() < 0.04:
+        return build_burst(rnd)
     stack = rnd.choice(["single", "chain", "chain", "mux", "mux", "nextlayer"])
     nev = rnd.randint(1, 5)
     scripts = {"A": gen_script(rnd, nev, stack in ("chain", "mux"), rnd.choice([0.2, 0.5])),
@@ -390,6 +422,8 @@ def check_case(case, ctx):
             ctx.nt(("nl", repr(case["scripts"]["A"]), repr(case["schedule"]), case.get("pick_at")), "stack=nextlayer")
         return
     mout, mlogs, waited = run_model(case)
+    if case.get("burst"):
+        ctx.cls("burst: >32 events queued during one pause" if len(case["schedule"]) > 34 else "burst: <=32 events")
     if waited:
         ctx.nt((case["stack"], repr(case["scripts"]), repr(case["schedule"])), "stack=" + case["stack"])
     else:
